@@ -1,2 +1,51 @@
-(* props/C15.v — placeholder until the theorems of this property are added. *)
-From Prophy Require Import Bytes Schema Layout Wire PcModel.
+(* props/C15.v — definition order does not matter: output is dependency-ordered and complete. *)
+From Coq Require Import List Bool Arith Lia Permutation.
+From Prophy Require Import PcSort PcSortFacts.
+Import ListNotations.
+
+(* For every set of definitions with unique identities (unique names are not even needed) whose dependency graph
+   is acyclic (stated constructively by a rank function that decreases along dependencies to
+   available names), in ANY input order, the model of prophyc's topological_sort returns a
+   permutation of the input — every definition exactly once — in which each definition comes
+   after every available definition it depends on (builtin names excepted). *)
+Theorem C15_sorted_complete :
+  forall (builtins : list nat) (rank : nat -> nat) (l0 : list node),
+    NoDup (map nid l0) ->
+    (forall n, In n l0 -> forall d, In d (ndeps n) -> mem d (map nname l0) = true -> rank d < rank (nname n)) ->
+    exists l', topological_sort builtins l0 = Sorted l' /\ Permutation l' l0 /\
+      forall p n, nth_error l' p = Some n -> forall d, In d (ndeps n) -> mem d (map nname l0) = true ->
+        mem d builtins = true \/ exists j m, j < p /\ nth_error l' j = Some m /\ nname m = d.
+Proof. exact topological_sort_sorted. Qed.
+Print Assumptions C15_sorted_complete.
+
+(* Any two orderings of the same definitions therefore give outputs that are permutations of
+   each other, each dependency-ordered. *)
+Corollary C15_any_permutation :
+  forall builtins rank l1 l2,
+    Permutation l1 l2 ->
+    NoDup (map nid l1) ->
+    (forall n, In n l1 -> forall d, In d (ndeps n) -> mem d (map nname l1) = true -> rank d < rank (nname n)) ->
+    exists o1 o2, topological_sort builtins l1 = Sorted o1 /\ topological_sort builtins l2 = Sorted o2 /\
+                  Permutation o1 o2.
+Proof.
+  intros builtins rank l1 l2 Hp Hi Ha.
+  destruct (topological_sort_sorted builtins rank l1 Hi Ha) as [o1 [E1 [P1 _]]].
+  assert (Hi2 : NoDup (map nid l2)) by (eapply Permutation_NoDup; [apply Permutation_map; exact Hp|exact Hi]).
+  assert (Hm : forall d, mem d (map nname l2) = mem d (map nname l1)).
+  { intros d. destruct (mem d (map nname l1)) eqn:E.
+    - apply mem_true. apply mem_true in E. eapply Permutation_in; [apply Permutation_map; exact Hp|exact E].
+    - destruct (mem d (map nname l2)) eqn:E2; [|reflexivity]. apply mem_true in E2.
+      assert (In d (map nname l1)) by (eapply Permutation_in; [apply Permutation_map; symmetry; exact Hp|exact E2]).
+      apply mem_true in H. congruence. }
+  destruct (topological_sort_sorted builtins rank l2 Hi2) as [o2 [E2 [P2 _]]].
+  { intros n Hin d Hd Hav. rewrite Hm in Hav. apply Ha; auto. eapply Permutation_in; [symmetry; exact Hp|exact Hin]. }
+  exists o1, o2. repeat split; auto. rewrite P1, P2. exact Hp.
+Qed.
+Print Assumptions C15_any_permutation.
+
+(* non-vacuity: three definitions given in reverse dependency order *)
+Definition ex_nodes : list node :=
+  [mk_node 0 10 [11; 12]; mk_node 1 11 [12; 1]; mk_node 2 12 [1]].
+Example C15_example :
+  topological_sort [1] ex_nodes = Sorted [mk_node 2 12 [1]; mk_node 1 11 [12; 1]; mk_node 0 10 [11; 12]].
+Proof. vm_compute. reflexivity. Qed.
